@@ -298,9 +298,7 @@ fn run_worker<F: Family>(
                     if ctx.nontrivial && st.nontrivial.len() < HASH_CAP {
                         let fresh = st.nontrivial.insert(h);
                         if fresh && st.samples.len() < 4 {
-                            let mut v = serde_json::to_value(&case).unwrap_or(Value::Null);
-                            truncate_arrays(&mut v);
-                            st.samples.push(v);
+                            st.samples.push(case_value(&case));
                         }
                     }
                     for (k, v) in ctx.counters {
@@ -374,21 +372,44 @@ fn run_worker<F: Family>(
     (st, outcome)
 }
 
+#[derive(Serialize, serde::Deserialize)]
+struct ReplayDoc<C> {
+    property: String,
+    family: String,
+    signature: String,
+    message: String,
+    case: C,
+}
+
+/// serde_json::Value cannot hold integers above u64::MAX (no arbitrary_precision), while
+/// typed (de)serialisation through strings can: replay files are written and read typed.
 fn write_replay<C: Serialize>(root: &std::path::Path, fam: &str, prop: &str, case: &C, v: &Violation) -> PathBuf {
     let dir = root.join("replays");
     let _ = std::fs::create_dir_all(&dir);
-    let case_v = serde_json::to_value(case).unwrap_or(Value::Null);
-    let h = hash_str(&serde_json::to_string(&case_v).unwrap_or_default());
+    let h = hash_str(&serde_json::to_string(case).unwrap_or_default());
     let path = dir.join(format!("{prop}-{:016x}.json", h));
-    let doc = json!({
-        "property": prop,
-        "family": fam,
-        "signature": v.signature,
-        "message": v.message,
-        "case": case_v,
-    });
-    let _ = std::fs::write(&path, serde_json::to_string_pretty(&doc).unwrap());
+    let doc = ReplayDoc { property: prop.to_string(), family: fam.to_string(), signature: v.signature.clone(), message: v.message.clone(), case };
+    let _ = std::fs::write(&path, serde_json::to_string_pretty(&doc).unwrap_or_default());
     path
+}
+
+/// a case as a JSON value for the evidence file; falls back to the JSON text when the
+/// case contains integers a serde_json::Value cannot represent
+fn case_value<C: Serialize>(case: &C) -> Value {
+    match serde_json::to_value(case) {
+        Ok(mut v) => {
+            truncate_arrays(&mut v);
+            v
+        }
+        Err(_) => {
+            let mut s = serde_json::to_string(case).unwrap_or_default();
+            if s.len() > 6000 {
+                s.truncate(6000);
+                s.push_str("...(truncated)");
+            }
+            Value::String(s)
+        }
+    }
 }
 
 #[allow(clippy::too_many_arguments)]
@@ -502,15 +523,13 @@ pub fn main_for<F: Family>(fam: F) -> ! {
                 eprintln!("INCONCLUSIVE: cannot read {}: {e}", args[3]);
                 std::process::exit(2)
             });
-            let v: Value = serde_json::from_str(&txt).unwrap_or_else(|e| {
-                eprintln!("INCONCLUSIVE: replay file does not parse: {e}");
-                std::process::exit(2)
-            });
-            let cv = v.get("case").cloned().unwrap_or(v);
-            serde_json::from_value(cv).unwrap_or_else(|e| {
-                eprintln!("INCONCLUSIVE: replay case does not decode: {e}");
-                std::process::exit(2)
-            })
+            match serde_json::from_str::<ReplayDoc<F::Case>>(&txt) {
+                Ok(doc) => doc.case,
+                Err(e1) => serde_json::from_str::<F::Case>(&txt).unwrap_or_else(|e2| {
+                    eprintln!("INCONCLUSIVE: replay file does not decode: {e1} / as bare case: {e2}");
+                    std::process::exit(2)
+                }),
+            }
         } else {
             let data = std::fs::read(&args[3]).unwrap_or_else(|e| {
                 eprintln!("INCONCLUSIVE: cannot read {}: {e}", args[3]);
